@@ -12,6 +12,15 @@ pub mod vars_secondary;
 pub mod vars_timestamp;
 use crate::version::zerv::bump::precedence::Precedence;
 
+/// Add a bump increment, reporting an error instead of overflowing
+pub(crate) fn checked_bump(value: u64, increment: u32, name: &str) -> Result<u64, ZervError> {
+    value.checked_add(increment as u64).ok_or_else(|| {
+        ZervError::InvalidArgument(format!(
+            "Cannot bump {name} {value} by {increment}: result is out of range"
+        ))
+    })
+}
+
 impl Zerv {
     pub fn apply_component_processing(&mut self, args: &ResolvedArgs) -> Result<(), ZervError> {
         let precedence_order: Vec<Precedence> =
